@@ -215,6 +215,23 @@ class SymV:
     def eq(self, a, b, **tol):
         return a == b
 
+    def prove_identity(self, name, a, b, **tol):
+        return self.path.prove_identity("%s.%s" % (self.h.ident, name), a, b)
+
+    def prove_nl(self, name, cond):
+        return self.path.prove_nl("%s.%s" % (self.h.ident, name), cond)
+
+    def backend(self, names=None):
+        from .stubs import SymBackend
+        return SymBackend(names) if names is not None else SymBackend()
+
+    def deriv(self, f, t):
+        from .realalg import derivative
+        x = f(t)
+        if isinstance(x, tuple):
+            return tuple(Sym(z3.simplify(derivative(to_z3(c, "real"), t.e))) if isinstance(c, Sym) else 0 for c in x), x
+        return (Sym(derivative(to_z3(x, "real"), t.e)) if isinstance(x, Sym) else 0), x
+
     def fail(self, name, detail=""):
         """reached a point that the contract forbids"""
         return self.path.prove("%s.%s" % (self.h.ident, name), False, detail=detail)
@@ -424,6 +441,25 @@ class ConcV:
     def eq(self, a, b, rel=1e-9, abs_=1e-12):
         return SP.approx_eq(a, b, rel, abs_)
 
+    def prove_identity(self, name, a, b, rel=1e-9, abs_=1e-12):
+        return self.prove(name, SP.approx_eq(float(a), float(b), rel, abs_), detail="lhs=%r rhs=%r" % (a, b))
+
+    def prove_nl(self, name, cond):
+        return self.prove(name, cond)
+
+    def backend(self, names=None):
+        import mpmath
+        mpmath.mp.dps = 40
+        return _MpBackend(names)
+
+    def deriv(self, f, t):
+        import mpmath
+        mpmath.mp.dps = 40
+        x = f(mpmath.mpf(t))
+        if isinstance(x, tuple):
+            return tuple(mpmath.diff(lambda tt, _i=i: f(tt)[_i], mpmath.mpf(t)) for i in range(len(x))), x
+        return mpmath.diff(f, mpmath.mpf(t)), x
+
     def call(self, fn, *args, **kwargs):
         with warnings.catch_warnings(record=True) as w:
             warnings.simplefilter("always")
@@ -476,6 +512,21 @@ class ConcV:
 
 class _Rejected(BaseException):
     pass
+
+
+class _MpBackend:
+    """mpmath namespace restricted to the attribute set of the backend it stands for"""
+
+    def __init__(self, names=None):
+        self._names = set(names) if names is not None else None
+
+    def __getattr__(self, name):
+        import mpmath
+        if name.startswith("_"):
+            raise AttributeError(name)
+        if self._names is not None and name not in self._names:
+            raise AttributeError("backend has no attribute %r" % name)
+        return getattr(mpmath, {"arctanh": "atanh"}.get(name, name))
 
 
 def run_concrete(h, inputs=None, rng=None, exact=False, use_interp=None):
